@@ -303,6 +303,7 @@ type c15Scenario struct {
 	Bodies []int
 	Cfg    string // key of c15Configs
 	Prime  []int  // bodies served one after the other on the same provider BEFORE the concurrent bodies start (free-running)
+	Dirty  bool   // before the bodies start, other replies are served on failing connections (dirtyWrites)
 }
 
 func c15Scenarios() []c15Scenario {
@@ -339,6 +340,10 @@ func c15Scenarios() []c15Scenario {
 		for _, t := range [][2]string{{"callback-S1", "callback-S2"}, {"logout-A", "logout-B"}, {"sso-rejected-A", "callback-S2"}, {"attrquery-S1", "metadata-b"}} {
 			out = append(out, c15Scenario{Name: "after " + bigName + ": " + t[0] + " || " + t[1], Bodies: []int{idx(t[0]), idx(t[1])}, Prime: []int{idx(bigName)}})
 		}
+	}
+	// after replies on failing connections (a pooled buffer that was not drained is handed to whoever renders next)
+	for _, t := range [][2]string{{"callback-S1", "callback-S2"}, {"logout-A", "logout-B"}, {"sso-rejected-A", "callback-pending"}, {"attrquery-S1", "metadata-b"}, {"attrquery-S2", "attrquery-S1"}, {"metadata-a", "callback-S3"}} {
+		out = append(out, c15Scenario{Name: "after replies on failing connections: " + t[0] + " || " + t[1], Bodies: []int{idx(t[0]), idx(t[1])}, Dirty: true})
 	}
 	// the two-tenant pairs again under the other provider configurations (fixed metadata URL, custom endpoint paths with an
 	// issuer path, fixed SSO / attribute URLs)
@@ -390,6 +395,9 @@ func c15RunScenario(sc c15Scenario, bound int, deadline time.Time, only []int) c
 		curWorld = w
 		for _, bi := range sc.Prime {
 			w.Do(bs[bi].Req(w))
+		}
+		if sc.Dirty {
+			dirtyWrites(w)
 		}
 		bodies := make([]sched.Body, len(sc.Bodies))
 		for i, bi := range sc.Bodies {
@@ -738,6 +746,22 @@ func runC15(ctx Ctx) int {
 		}
 	})
 	c2 = c2 && c2b
+	// every body after replies on failing connections (every configuration): the reply is the solo reply
+	_, c2c := parallel(len(bs)*len(cfgNames), deadline, func(i int) {
+		b, cfgName := bs[i/len(cfgNames)], cfgNames[i%len(cfgNames)]
+		w := c15WorldCfg(cfgName)
+		dirtyWrites(w)
+		last := c15Observe(w.Do(b.Req(w)))
+		solo := c15SoloObsCfg(b, cfgName)
+		run.Evaluations.Add(1)
+		if last.Norm != solo.Norm || strings.Contains(last.Raw, dirtyMarker) {
+			run.Outcome("after-failed-writes:differs")
+			run.Violate("reply-after-replies-on-failing-connections-differs-from-the-reply-on-a-fresh-provider", "sequential", []string{"history", "config=" + cfgName, "after-failed-writes", "step=" + b.Name}, map[string]any{"detail": diffHint(solo.Norm, last.Norm)}, nil)
+		} else {
+			run.Outcome("after-failed-writes:same")
+		}
+	})
+	c2 = c2 && c2c
 	// history companion with a storage failure at the last step: b1 ; (one storage operation fails once) ; b2. The reply to b2
 	// equals the reply b2 gets on a FRESH provider with the same failure, and shares no message ID with the reply to b1
 	// (state kept from an earlier request must not be served to a later one, whatever goes wrong in between)
